@@ -58,7 +58,11 @@ class Model:
         self.args = dict(masks=[np.array(m) for m in cfg["pupil_masks"]], subd=list(cfg["subap_diameters"]), alts=list(cfg["gs_altitudes"]),
                          pos=[list(p) for p in cfg["gs_positions"]], wl=list(cfg["wfs_wavelengths"]), lalt=list(cfg["layer_altitudes"]),
                          r0=list(cfg["layer_r0s"]), L0=list(cfg["layer_L0s"]))
-        self.snap = {k: ([np.array(x).copy() for x in v] if k == "masks" else [list(x) if isinstance(x, list) else x for x in v]) for k, v in self.args.items()}
+        if cfg.get("arg_types") == "arrays":
+            for k in ("subd", "alts", "pos", "wl", "lalt", "r0", "L0"):
+                self.args[k] = np.array(self.args[k], dtype=float)
+        import copy
+        self.snap = copy.deepcopy(self.args)
         ref, _ = c01.build(cfg)                       # fresh object, single process
         self.ref = ref.copy()
         a = self.args
@@ -73,7 +77,7 @@ class Model:
         for m, m0 in zip(a["masks"], s["masks"]):
             self.ctx.equal(m, m0, "a pupil mask was modified by a build")
         for k in ("subd", "alts", "pos", "wl", "lalt", "r0", "L0"):
-            self.ctx.require(a[k] == s[k], "input list %r was modified by a build" % k)
+            self.ctx.require(np.array_equal(np.asarray(a[k], dtype=float), np.asarray(s[k], dtype=float)), "input argument %r was modified by a build" % k)
 
     def apply(self, op):
         sc = SC()
